@@ -32,40 +32,32 @@ theorem sse_in_response_fragmentation_independent (chunks : List Bytes) (closed 
 
 /-- after the connection dropped and the client re-requested, nothing of the old stream is left but the last event id
 and retry: the reconnect forgets `evented`, ... -/
-theorem reconnect_keeps_only_id_and_retry (s : RespSt) :
-    s.reconnect.evented = none ∧ s.reconnect.leid = s.leid ∧ s.reconnect.retry = s.retry := by
-  unfold RespSt.reconnect; split <;> simp
+theorem reconnect_keeps_only_id_and_retry (s : RespSt) (h : s.escapedCls = none) :
+    s.reconnect.phase = .status true ∧ s.reconnect.leid = s.curLeid ∧ s.reconnect.retry = s.curRetry := by
+  unfold RespSt.reconnect
+  split
+  · rename_i c hc; simp [RespSt.escapedCls, hc] at h
+  · exact ⟨rfl, rfl, rfl⟩
+
+/-- the new connection starts from an empty receive buffer: what the sequence delivers for connection n+1 is a function of
+the reconnected state and that connection's reads only (the leftover bytes of connection n do not enter) -/
+theorem respSeq_cons (s : RespSt) (frags : List Bytes) (more : List (List Bytes)) :
+    respSeq s (frags :: more) =
+      respFinal (frags.foldl respReader.feed (s, [])) true ::
+        respSeq (respFinal (frags.foldl respReader.feed (s, [])) true).1.reconnect more := rfl
 
 /-- ... and the head of the next event-stream response builds a NEW event source over an EMPTY line buffer, whatever
 unfinished line, half-built event or pending lone CR the dropped stream left behind (`s.sse`, `s.ssePend` arbitrary) -/
-theorem evented_head_starts_fresh (s s' : RespSt) (h : Hdrs) (hev : s.evented = none)
+theorem evented_head_starts_fresh (s s' : RespSt) (h : Hdrs) (c : Bytes)
+    (hct : hget h (ascii "content-type") = some c) (hc : c.isEmpty = false)
     (hd : respHeadDone s h = .ok s') (hs : s'.isEv = true) :
     s'.sse = {} ∧ s'.ssePend = [] ∧ s'.leid = s.leid ∧ s'.retry = s.retry := by
   unfold respHeadDone at hd
-  simp only [hev] at hd
-  cases hct : hget h (ascii "content-type") with
-  | none =>
-    simp only [hct] at hd
-    split at hd
-    · simp at hd; subst hd; simp [RespSt.isEv] at hs
-    · split at hd
-      · simp at hd; subst hd; simp [RespSt.isEv] at hs
-      · simp at hd; subst hd; simp [RespSt.isEv] at hs
-  | some c =>
-    simp only [hct] at hd
-    by_cases hc : c.isEmpty = true
-    · simp only [hc] at hd
-      split at hd
-      · simp at hd; subst hd; simp [RespSt.isEv] at hs
-      · split at hd
-        · simp at hd; subst hd; simp [RespSt.isEv] at hs
-        · simp at hd; subst hd; simp [RespSt.isEv] at hs
-    · simp only [hc] at hd
-      split at hd
-      · simp at hd; subst hd; simp [RespSt.isEv] at hs; simp [hs]
-      · split at hd
-        · simp at hd; subst hd; simp [RespSt.isEv] at hs; simp [hs]
-        · simp at hd; subst hd; simp [RespSt.isEv] at hs; simp [hs]
+  simp only [hct, hc, Except.ok.injEq] at hd
+  subst hd
+  simp only [RespSt.isEv] at hs
+  simp at hs
+  simp [hs]
 
 /-- the body bytes of a stream, absorbed in any pieces (reads or chunks), are absorbed as their concatenation -/
 theorem absorb_pieces (d : Bytes) (more : List Bytes) (s : RespSt) :
